@@ -220,7 +220,7 @@ def C11(tier):
     def extra(c, jobs, results):
         specrel.c11_coreachability(c, tier)
     return machine_check("C11", tier, kinds=("entry",), pid_filter=c11_filter, extra=extra, explanation=(
-        "every Partial return has no unread byte and the end of input observed, and the reference is then in a non-rejecting state "
+        "at every Partial return the end of the buffer has been observed, every byte the implementation has seen (consumed, looked at, or measured ahead) has been fed to the reference, and the reference is then in a non-rejecting state "
         "(every non-final reference state can reach Complete, checked on the reference itself)"))
 
 
